@@ -28,6 +28,11 @@ func init() {
 				fns = append(fns, fn)
 			}
 			m.RunErrDrop(s, "R-ERRDROP", fns)
+			// what one tree's load leaves behind must not reach the next tree's load (a cache keyed by layout name, ...)
+			m.RunSharedWrites(s, "R-SHARED", m.Roots().Load, "history", map[string]string{
+				"textwire.userConfig":    "NewTemplate/Configure install the caller's configuration (documented, sticky by design: see C06's reset hook note)",
+				"textwire.usesTemplates": "NewTemplate switches the package to template mode",
+			})
 			s.RequireMin("R-LAYOUT", 14, "linking, duplicates, ApplyLayout, ordering, layout-in-layout, reserve evaluation, registration, alias")
 		},
 	})
